@@ -130,7 +130,7 @@ CONTS_PER_PROGRAM = 4
 
 def plan(tier, seed):
     n = 16 if tier == "quick" else 64
-    programs = 16 if tier == "quick" else 90
+    programs = 16 if tier == "quick" else 60
     # glibc: keep large numpy temporaries on the heap instead of mmap/munmap per array (measured: -40% CPU)
     env = {"MALLOC_MMAP_THRESHOLD_": "33554432", "MALLOC_TRIM_THRESHOLD_": "1073741824", "MALLOC_TOP_PAD_": "67108864"}
     return [{"shard": i, "programs": programs, "timeout": 1500 if tier == "quick" else 3400, "env": env} for i in range(n)]
@@ -1013,3 +1013,7 @@ MANIFEST_ENTRY = {
     "text": "Generated programs create pairs of objects (box, cylinder, cone, spheroid, random hulls, non-convex and multi-body unions; fixed, position-sampled and dimension-sampled) placed at signed offsets around first contact, and objects around the boundary of convex / non-convex / footprint-with-holes / composed containers. Object.intersects (both argument orders), the intersects/in operators, Region.containsObject, obj.intersects(region), minimumDistanceTo and a shortcut-free re-evaluation on plain MeshVolumeRegions are compared with the oracle's definite answers; the exit of every multi-pass procedure that decided is recorded and each important exit has a minimum count. Bounded exploration.",
     "note": "Trusts scipy linprog/qhull and numpy; trimesh/manifold only as input constructors whose output is validated against the oracle's pieces. Configurations within 1e-4 of touching are skipped and counted. Distances are compared with tolerance 1e-4 abs + 1e-4 rel.",
 }
+
+
+# thorough-tier floors: the quick-tier floors scaled by a conservative fraction of the size ratio of the two tiers
+MIN_COUNTERS["thorough"] = {k: int(v * 7) for k, v in MIN_COUNTERS["quick"].items()}
